@@ -321,7 +321,8 @@ CRASH_GOALS = ["StaleOffsetFile", "OffsetFileAhead", "OffsetFileOnly", "CrashTem
 # ---------------------------------------------------------------- replay + judge
 
 def run_and_judge(pid, V, bins, scenarios, tables_of, flags, invs, work, array_dup_oracle,
-                  classify=None, label="replay", value_oracle=None, end_oracle=True, decision_lines=False):
+                  classify=None, label="replay", value_oracle=None, end_oracle=True, decision_lines=False,
+                  observation_lines=("QueryResult",)):
     """Runs scenarios on the real code, validates the traces with TLC and
     applies the end-state oracle.  tables_of(scn) -> list of Table.
     Returns statistics."""
@@ -373,10 +374,11 @@ def run_and_judge(pid, V, bins, scenarios, tables_of, flags, invs, work, array_d
                 rp = common.save_replay(pid, scn, {"scenario": sc, "rejected_at": fl, "kind": "decision"})
                 V.violation(rp, "%s: table %s %s entry %s, the specification decides otherwise at trace line %d"
                             % (scn, fl["rec"]["t"], "stored" if fl["rec"]["data"] else "skipped", fl["rec"]["idx"], fl["line"]))
-            elif fl["rec"]["a"] == "QueryResult":
+            elif fl["rec"]["a"] in observation_lines:
                 rp = common.save_replay(pid, scn, {"scenario": sc, "rejected_at": fl, "kind": "observation"})
-                V.violation(rp, "%s: rows returned by %s (mem=%s) are not the rows the specification allows at trace line %d"
-                            % (scn, fl["rec"]["t"], fl["rec"]["mem"], fl["line"]))
+                V.violation(rp, "%s: rows returned by %s (mem=%s)%s are not the rows the specification allows at trace line %d"
+                            % (scn, fl["rec"]["t"], fl["rec"]["mem"],
+                               " for `%s`" % fl["rec"]["sql"] if "sql" in fl["rec"] else "", fl["line"]))
             else:
                 stats["diverged"] += 1
                 V.notes.append("%s: trace not a behaviour of the specification at %s (structural, see end-state oracle)"
@@ -428,7 +430,8 @@ def sample_of(sc, n=14):
 
 def store_check(args, pid, mc_jobs, gen, invs, array_dup_oracle, assumptions, classify=None,
                 mc_props=("FlushInvisible", "DiskEqualsViewAfterSwap"), nontrivial_rule=None, value_oracle=None,
-                extra_cov=None, end_oracle=True, decision_lines=False, post_judge=None):
+                extra_cov=None, end_oracle=True, decision_lines=False, post_judge=None,
+                observation_lines=("QueryResult",)):
     """Common driver: (M) exhaustive TLC jobs, counterexamples replayed as
     hypotheses; (R) simulated behaviours replayed on the real code, traces
     validated by TLC, end-state oracle."""
@@ -491,7 +494,8 @@ def store_check(args, pid, mc_jobs, gen, invs, array_dup_oracle, assumptions, cl
         print("[%s] %d scenarios generated at %.1fs" % (pid, len(scenarios), time.time() - t0), flush=True)
         stats, traces, fails, viols = run_and_judge(pid, V, bins, scenarios, lambda s: tabs_of[s["scn"]], flags, invs,
                                                    work, array_dup_oracle, classify, value_oracle=value_oracle,
-                                                   end_oracle=end_oracle, decision_lines=decision_lines)
+                                                   end_oracle=end_oracle, decision_lines=decision_lines,
+                                                   observation_lines=observation_lines)
         if post_judge:
             post_judge(V, scenarios, traces)
         if extra_cov:
@@ -1149,11 +1153,172 @@ def check_C17(args):
                        end_oracle=False, extra_cov=extra_cov, post_judge=judge_sets)
 
 
+# ---------------------------------------------------------------- C06 / C07
+
+Q_TABLES = [Table("a", fields=("f", "g"), where="all", group=("a", "b"), res=2, ret=1000),
+            Table("b", fields=("f",), where="all", group=("a",), res=1, ret=1000),
+            Table("c", fields=("g", "f"), where="all", group=("a", "b"), res=2, ret=10)]
+
+
+def bound(rng, kind_p, now, span):
+    r = rng.random()
+    if r < kind_p[0]:
+        return {"k": "none", "v": 0}
+    if r < kind_p[1]:
+        # (an offset of 0 is "not given" to the parser: ASOF '0s' is ignored)
+        return {"k": "rel", "v": -rng.randint(1, max(1, span))}
+    return {"k": "abs", "v": rng.randint(0, now + 2)}
+
+
+def sql_bound(b):
+    if b["k"] == "rel":
+        return "'-%ds'" % (-b["v"]) if b["v"] else "'0s'"
+    return "'2020-01-01T00:00:%02dZ'" % b["v"]
+
+
+def gquery(rng, t, now, ranged=True, grouped=True):
+    """An abstract grouped / time-ranged query of table t and its SQL."""
+    dims = [g for g in t.group]
+    by = "*"
+    if grouped and rng.random() < 0.7:
+        sub = [d for d in dims if rng.random() < 0.5]
+        by = ",".join(sorted(sub))
+    m = 0
+    if grouped and rng.random() < 0.7:
+        m = rng.choice([1, 2, 3, 5, 7, 2, 3])
+    as_of = {"k": "none", "v": 0}
+    until = {"k": "none", "v": 0}
+    if ranged and rng.random() < 0.8:
+        as_of = bound(rng, (0.0, 0.55), now, now + 1)
+        if rng.random() < 0.75:
+            until = bound(rng, (0.0, 0.55), now, now)
+    fields = [f for f in t.flds() if rng.random() < 0.6] or ["p"]
+    sel = ", ".join("_points" if f == "p" else f for f in fields)
+    extra = ""
+    if rng.random() < 0.3 and "f" in t.fields:
+        extra = ", f / _points AS ratio"
+    sql = "SELECT %s%s FROM %s" % (sel, extra, t.name)
+    if as_of["k"] != "none":
+        sql += " ASOF " + sql_bound(as_of)
+        if until["k"] != "none":
+            sql += " UNTIL " + sql_bound(until)
+    gb = []
+    if by == "":
+        gb.append("_")
+    elif by != "*":
+        gb += by.split(",")
+    if m:
+        gb.append("period(%ds)" % (m * t.res))
+    if gb:
+        sql += " GROUP BY " + ", ".join(gb)
+    desc = {"by": by, "m": m, "asOf": as_of, "until": until}
+    return {"a": "GQuery", "t": t.name, "mem": rng.random() < 0.7, "sql": sql, "desc": desc, "fields": fields}
+
+
+def ratio_oracle(sc, traces_lines):
+    """f / _points recomputed from merged components (C06): the ratio column of a
+    row equals its f value divided by its _points value when both are selected."""
+    bad = []
+    for l in traces_lines:
+        if l.get("a") != "GQueryResult" or l.get("err"):
+            continue
+        for r in l.get("raw", []):
+            v = r["v"]
+            if "ratio" in v and "f" in v and "_points" in v and v["_points"]:
+                if abs(v["ratio"] - v["f"] / v["_points"]) > 1e-9 * max(1.0, abs(v["ratio"])):
+                    bad.append([l["sql"], r])
+    return bad
+
+
+def grouped_check(args, pid, ranged, grouped, text_assumptions):
+    def mc_jobs(quick):
+        return [dict(tables=MC_TABLES, menu=MC_MENU, max_flushes=2, max_crashes=0)]
+
+    qstats = {"queries": 0, "with_rows": 0, "errors": 0, "distinct": set(), "periods_gt_window": 0}
+
+    def gen(rng, quick, work, flags):
+        for di in range(40 if quick else 600):
+            tabs = Q_TABLES
+            n = rng.randint(6, 12)
+            menu = random_menu(rng, n, ticks=(1, 12), keys=rng.choice([[1, 3], [1, 2, 3, 4], [3, 4]]), nonnumeric=False)
+            d = Directed(tabs, menu)
+            now = 0
+            script = []
+            for i in range(n):
+                d.insert_and_process()
+                now = max(now, menu[i]["ts"])
+                if rng.random() < 0.3:
+                    d.flush(rng.choice(tabs).name)
+                if i >= 2 and rng.random() < 0.5:
+                    d.h.append({"a": "Probe"})
+                    d.h.append({"a": "GQ", "now": now})
+            d.h.append({"a": "GQ", "now": now})
+            # scenario_from_hist does not know GQ: splice the queries in afterwards
+            marks = [x for x in d.h if x["a"] == "GQ"]
+            hist = [x for x in d.h]
+            sc_cmds = []
+            sc = scenario_from_hist("%s-%d" % (pid, di), tabs, menu, [x for x in hist if x["a"] != "GQ"], probe_every=False)
+            # rebuild with GQuery commands after every Probe block and at the end
+            out = []
+            qi = 0
+            for c in sc["cmds"]:
+                out.append(c)
+            # append queries before the final Settle: simplest placement that keeps gating exact
+            idx = max(i for i, c in enumerate(out) if c["a"] == "Settle") + 1
+            qs = []
+            for _ in range(rng.randint(6, 14)):
+                t = rng.choice(tabs)
+                q = gquery(rng, t, now, ranged=ranged, grouped=grouped)
+                qs.append(q)
+            out[idx:idx] = qs
+            sc["cmds"] = out
+            yield sc, tabs
+
+    def post_judge(V, scenarios, traces):
+        by_id = {s["scn"]: s for s in scenarios}
+        for scn, lines in traces.items():
+            for l in lines:
+                if l.get("a") == "GQueryResult":
+                    qstats["queries"] += 1
+                    qstats["distinct"].add(l["sql"])
+                    if l.get("err"):
+                        qstats["errors"] += 1
+                    elif l["rows"]:
+                        qstats["with_rows"] += 1
+            bad = ratio_oracle(by_id[scn], lines)
+            if bad:
+                rp = common.save_replay(pid, scn + "-ratio", {"scenario": by_id[scn], "kind": "ratio", "bad": bad[:5]})
+                V.violation(rp, "%s: ratio field not recomputed from merged components: %s" % (scn, bad[0]))
+
+    def extra_cov(scenarios, traces):
+        return {"bound_queries": qstats["queries"], "queries_returning_rows": qstats["with_rows"],
+                "queries_in_error": qstats["errors"], "distinct_queries": len(qstats["distinct"]),
+                "sample_queries": sorted(qstats["distinct"])[:6]}
+
+    return store_check(args, pid, mc_jobs, gen, ["AtMostOnce"], True, text_assumptions + BASE_ASSUMPTIONS[:1],
+                       end_oracle=False, extra_cov=extra_cov, post_judge=post_judge, observation_lines=("QueryResult", "GQueryResult"))
+
+
+def check_C06(args):
+    return grouped_check(args, "C06", ranged=False, grouped=True, text_assumptions=[
+        "what is checked is the statement relative to the timestamps T of the rows actually returned: rows of one key at least P "
+        "apart; a row holds exactly the native cells projecting to its key with period end in (T-P, T] (inside the window); every "
+        "native cell inside the window is covered; f / _points is recomputed from the merged components",
+        "group-by subsets of the table's dimensions incl. none, period multiples 1 2 3 5 7 (non-divisors of the window, larger than the window)"])
+
+
+def check_C07(args):
+    return grouped_check(args, "C07", ranged=True, grouped=True, text_assumptions=[
+        "a period wholly inside (asOf, until] must be returned, a period wholly outside must not, a period straddling a bound may "
+        "go either way (the statement leaves it open); without a range the window is (now - retention, now]",
+        "relative and absolute bounds at tick granularity against tables of resolution 1 and 2 ticks, combined with grouping and period multiples"])
+
+
 def tables_from_defs(sc):
     """Rebuild Table objects of a stored scenario (replay)."""
     out = []
     for d in sc["tables"]:
-        cand = [t for t in MC_TABLES + C03_TABLES + C01_TABLES + C14_TABLES + C14_TABLES2 + C15_TABLES + C18_TABLES if t.define() == d]
+        cand = [t for t in MC_TABLES + C03_TABLES + C01_TABLES + C14_TABLES + C14_TABLES2 + C15_TABLES + C18_TABLES + Q_TABLES if t.define() == d]
         if cand:
             out.append(cand[0])
         else:
@@ -1161,4 +1326,4 @@ def tables_from_defs(sc):
     return out
 
 
-CHECKS = {"C17": check_C17, "C04": check_C04, "C18": check_C18, "C15": check_C15, "C14": check_C14, "C01": check_C01, "C02": check_C02, "C03": check_C03}
+CHECKS = {"C06": check_C06, "C07": check_C07, "C17": check_C17, "C04": check_C04, "C18": check_C18, "C15": check_C15, "C14": check_C14, "C01": check_C01, "C02": check_C02, "C03": check_C03}
